@@ -7,8 +7,9 @@
     C06_port_equation (V = Voc − Zth·J for *any* attached branch), C06_thevenin, C06_norton,
     C06_parallel, C06_series.
   Code level (model CC/Model/Port.lean of the repaired `open_circuit_impedance`, fix e030c44):
-    C06_impl_early_correct, C06_impl_eq_spec (ideal voltage sources anywhere; hypotheses: distinct
-    ids, no self-loop, no pruned unknown, well-posed probe network), the two former failing inputs
+    C06_impl_early_correct, C06_impl_eq_spec_partial (ideal voltage sources anywhere; hypotheses: distinct
+    ids, no self-loop, NO PRUNED UNKNOWN, well-posed probe network — the pruning path itself and the other
+    functions of the group are covered by correspondence + oracle only), the two former failing inputs
     as positive examples; `C06_isolated_port` (fix aab1640: model answers ∞ ⇒ the Spec has no solution);
     what remains open is named precisely: `C06_floating_island_counterexample`
     (a floating group of nodes leaves the solved matrix singular although `PortZ` is defined).
@@ -337,13 +338,22 @@ theorem C06_exists (N : Net L K) (pid : String) (a b : L) (hp : pid ∉ N.ids) (
     (hw : WellPosed (probeNet N pid a b 1)) : ∃ R : Report L K, CircuitEqs (probeNet N pid a b 1) R :=
   circuitEqs_exists_of_wellposed _ (probeNet_wf N pid a b hp hids hsl hab hz) hw
 
-/-- **C06 (code level): the repaired `open_circuit_impedance` computes the port impedance.**
-For every network (any labels, any field, ideal voltage sources and short circuits *anywhere*)
-with distinct ids and without self-loops, whose probe network is well-posed, and in which no
-unknown is pruned (`keep` all true): whatever the function returns — with any linear solver
-that returns solutions (`SolveOK`) — is `PortZ`.  (For the early return with an ideal source directly
-across the port, solvability of the probe network comes from `C06_exists`.) -/
-theorem C06_impl_eq_spec (N : Net L K) (solve : List (List K) → List K → Option (List K))
+/-- **C06 (code level, PARTIAL): on networks in which nothing is pruned, the repaired
+`open_circuit_impedance` computes the port impedance.**  For every network (any labels, any field,
+ideal voltage sources and short circuits *anywhere*) with distinct ids and without self-loops, whose probe
+network is well-posed, and in which no unknown is pruned (`keep` all true): whatever the function returns —
+with any linear solver that returns solutions (`SolveOK`) — is `PortZ`.  (For the early return with an ideal
+source directly across the port, solvability of the probe network comes from `C06_exists`.)
+
+What this theorem does NOT cover (hence `_partial`): `hw` excludes every network with a node that hangs on
+zero-admittance branches only (a capacitor at `w = 0`, an open circuit), and for such networks `hkeep` fails
+as well — the pruning / re-indexing path of the code (`keepMask`, `subMatrix`, `countBefore`; the place of the
+repaired defects C06-1 and C06-2) is exercised by NO theorem: `C06ex.exP` (`O(1,0)`, `R(2,0)`, `R2(3,2)`), the only
+pruned example in this file, is outside the hypotheses.  That path, and `elementImpedance`,
+`openCircuitVoltage`, `shortCircuitCurrent`, the equivalent-source records, `sweep` / `dcResistance` and the
+`jwL`, `1/(jwC)` clause of the property are covered by model + correspondence + oracle only
+(`harness/props/c06.py`).  For an isolated port node see `C06_isolated_port`. -/
+theorem C06_impl_eq_spec_partial (N : Net L K) (solve : List (List K) → List K → Option (List K))
     (pid : String) (n1 n2 : L) (z : K) (hp : pid ∉ N.ids) (hsolve : SolveOK solve) (hids : N.ids.Nodup)
     (hsl : ∀ b ∈ N.branches, b.n1 ≠ b.n2)
     (hkeep : ∀ N' keep A e i1, N.portPre n1 n2 = .ok (.sys N' keep A e i1) → keep.all id = true)
@@ -682,9 +692,9 @@ end C06ex
 /-! ### non-vacuity: the former failing inputs -/
 
 /-- on `Vs(1,0), R1(1,2) = 10 Ω, R2(2,0) = 10 Ω` the repaired function returns 5 Ω between 2 and 0
-(it returned 10 Ω before e030c44), and every hypothesis of `C06_impl_eq_spec` is met -/
+(it returned 10 Ω before e030c44), and every hypothesis of `C06_impl_eq_spec_partial` is met -/
 example : PortZ C06ex.exN "p" 2 0 5 :=
-  C06_impl_eq_spec C06ex.exN C06ex.solve0 "p" 2 0 5 (by decide) C06ex.solve0_ok (by decide)
+  C06_impl_eq_spec_partial C06ex.exN C06ex.solve0 "p" 2 0 5 (by decide) C06ex.solve0_ok (by decide)
     (by intro b hb; simp only [C06ex.exN, List.mem_cons, List.mem_nil_iff, or_false] at hb
         rcases hb with rfl | rfl | rfl <;> decide)
     C06ex.exN_keep C06ex.exN_wellposed
